@@ -68,6 +68,54 @@ pub fn files(thorough: bool) -> Vec<FileVersions> {
     f
 }
 
+/// Second file set: the import / pytest_plugins structure changes under the edits (the fixtures a
+/// conftest provides come from other modules whose own contents change, break and recover).
+pub fn import_files() -> Vec<FileVersions> {
+    let fx = |doc: &str| format!("import pytest\n\n@pytest.fixture\ndef fx():\n    \"\"\"{doc}\"\"\"\n    return 1\n");
+    vec![
+        FileVersions {
+            rel: "conftest.py",
+            versions: vec![
+                ("star-helpers", "import pytest\nfrom helpers import *\n".to_string(), true),
+                ("explicit-fx", "import pytest\nfrom helpers import fx\n".to_string(), true),
+                ("explicit-kx", "import pytest\nfrom helpers import kx\n".to_string(), true),
+                ("plugins-helpers", "import pytest\n\npytest_plugins = [\"helpers\"]\n".to_string(), true),
+                ("star-helpers2", "import pytest\nfrom helpers2 import *\n".to_string(), true),
+                ("own-fx", fx("own"), true),
+                ("star-then-own", format!("from helpers import *\n{}", fx("own after star")), true),
+                ("nothing", "import pytest\n".to_string(), true),
+                ("broken-star", "import pytest\nfrom helpers import *\ndef (\n".to_string(), false),
+            ],
+        },
+        FileVersions {
+            rel: "helpers.py",
+            versions: vec![
+                ("fx", fx("helpers"), true),
+                ("kx", "import pytest\n\n@pytest.fixture\ndef kx():\n    return 2\n".to_string(), true),
+                ("fx+kx", format!("{}\n@pytest.fixture(scope=\"session\")\ndef kx(fx):\n    return 2\n", fx("helpers both")), true),
+                ("star-helpers2", "from helpers2 import *\n".to_string(), true),
+                ("nothing", "X = 1\n".to_string(), true),
+                ("broken", "import pytest\n@pytest.fixture\ndef fx(:\n".to_string(), false),
+            ],
+        },
+        FileVersions {
+            rel: "helpers2.py",
+            versions: vec![
+                ("fx", fx("helpers2"), true),
+                ("star-helpers", "from helpers import *\n".to_string(), true),
+                ("nothing", "Y = 1\n".to_string(), true),
+            ],
+        },
+        FileVersions {
+            rel: "a/test_m.py",
+            versions: vec![
+                ("uses-fx-kx", "def test_one(fx, kx):\n    pass\n".to_string(), true),
+                ("undeclared", "def test_one():\n    fx.x\n    kx.x\n".to_string(), true),
+            ],
+        },
+    ]
+}
+
 #[derive(Clone)]
 pub struct St {
     /// per file: (current version, last valid version); None = never opened
@@ -112,6 +160,8 @@ pub struct HistModel {
     /// also explore didClose (cleanup_file_cache) actions, encoded as version 255
     pub with_close: bool,
     pub extra: Option<Box<Extra>>,
+    /// history applied before the exploration starts (non-initial start state); depth counts from there
+    pub init: Vec<(u8, u8)>,
 }
 
 fn path_of(rel: &str) -> PathBuf {
@@ -251,14 +301,36 @@ impl Model for HistModel {
     type Action = (u8, u8);
 
     fn init_states(&self) -> Vec<St> {
-        vec![St {
+        let mut st = St {
             key: vec![(None, None); self.files.len()],
             closed: vec![false; self.files.len()],
             depth: 0,
             hist: vec![],
             valid_order: vec![],
             db: Arc::new(FixtureDatabase::new()),
-        }]
+        };
+        if !self.init.is_empty() {
+            let db = crate::seed::on_fresh_thread(|| {
+                let db = FixtureDatabase::new();
+                for &(f, v) in &self.init {
+                    let fv = &self.files[f as usize];
+                    db.analyze_file(path_of(fv.rel), &fv.versions[v as usize].1);
+                }
+                db
+            });
+            for &(f, v) in &self.init {
+                let valid = self.files[f as usize].versions[v as usize].2;
+                st.key[f as usize].0 = Some(v);
+                if valid {
+                    st.key[f as usize].1 = Some(v);
+                    st.valid_order.retain(|&x| x != f);
+                    st.valid_order.push(f);
+                }
+                st.hist.push((f, v));
+            }
+            st.db = Arc::new(db);
+        }
+        vec![st]
     }
     fn actions(&self, s: &St, out: &mut Vec<(u8, u8)>) {
         if s.depth >= self.max_depth {
@@ -396,6 +468,7 @@ pub fn explore_for(
         judge: false,
         with_close: true,
         extra: Some(Box::new(f)),
+        init: vec![],
     };
     explore(m).0
 }
@@ -412,11 +485,12 @@ pub fn run(rep: &'static Report) {
         judge: true,
         with_close: false,
         extra: None,
+        init: vec![],
     };
     let (v, m) = explore(m);
     // second run (DFS order is not offered with identical counters by stateright for depth-keyed
     // states; instead re-run BFS and require identical unique-state and transition counts)
-    let m2 = HistModel { transitions: AtomicU64::new(0), oracle_fresh_builds: AtomicU64::new(0), judge: false, with_close: false, extra: None, files: files(thorough), max_depth: depth, rep };
+    let m2 = HistModel { transitions: AtomicU64::new(0), oracle_fresh_builds: AtomicU64::new(0), judge: false, with_close: false, extra: None, init: vec![], files: files(thorough), max_depth: depth, rep };
     let (v2, _) = explore(m2);
     if v["unique_states"] != v2["unique_states"] || v["transitions"] != v2["transitions"] {
         rep.machinery_error(&format!("state/transition counts differ between two explorations: {} vs {}", v, v2));
@@ -432,6 +506,30 @@ pub fn run(rep: &'static Report) {
     rep.set("exhaustive", true);
     rep.set("rule", "explicit-state BFS (stateright) over all histories of didOpen/didChange full-text versions up to the stated depth; state = per file (current version, last valid version) + depth, carrying a deep copy of the real FixtureDatabase; action = analyze_file(file, version text) exactly as did_open/did_change call it; on EVERY generated transition: (1) index maps equal, as multisets, those of a fresh server fed the last valid content of every file, (2) undeclared findings of the last-changed document equal those of analysing it last on the fresh server, (3) every answer (go-to-definition at every usage, references of every definition, available fixtures, cycles, scope mismatches, unused) equals the fresh server's for some feed order; every transition executes the real code, hence traces_validated = transitions");
     rep.sample(json!({"history": m.hist_json(&[(0, 0), (2, 0), (0, 5), (0, 3)])}));
+    // second model: import structure under edit, started from a populated (non-initial) state
+    let idepth: u8 = if thorough { 4 } else { 3 };
+    let mut import_models = vec![];
+    for init in [vec![(2u8, 0u8), (1, 0), (0, 0), (3, 0)], vec![(3, 0), (0, 3), (1, 2), (2, 1)]] {
+        let mi = HistModel {
+            files: import_files(),
+            max_depth: idepth,
+            rep,
+            transitions: AtomicU64::new(0),
+            oracle_fresh_builds: AtomicU64::new(0),
+            judge: true,
+            with_close: false,
+            extra: None,
+            init: init.clone(),
+        };
+        let (vi, mi) = explore(mi);
+        rep.add("states", vi["unique_states"].as_u64().unwrap_or(0));
+        rep.add("transitions", vi["transitions"].as_u64().unwrap_or(0));
+        rep.add("evaluations", vi["transitions"].as_u64().unwrap_or(0));
+        rep.add("distinct_nontrivial", vi["unique_states"].as_u64().unwrap_or(0));
+        rep.add("traces_validated_against_impl", mi.transitions.load(Ordering::Relaxed));
+        import_models.push(json!({"start_history": mi.hist_json(&init).as_array().map(|a| a.iter().map(|h| format!("{}:={}", h["file"].as_str().unwrap_or(""), h["version"].as_str().unwrap_or(""))).collect::<Vec<_>>()), "model": vi}));
+    }
+    rep.set("import_structure_models", json!(import_models));
     rep.assume("queries are not asked inside documents whose current text is invalid (the statement only promises their last valid fixtures to the rest of the workspace)");
     rep.assume("the existential over fresh feed orders keeps C06 independent of the registration-order dependence judged by C08");
 }
